@@ -627,7 +627,8 @@ class PortNamespace(collections.abc.MutableMapping, Port):
         breadcrumbs_local = (*breadcrumbs, self.name)
         message: Optional[str]
 
-        if not port_values:
+        if port_values is None or port_values is UNSPECIFIED:
+            # nothing was specified for this namespace (a falsy value that is not a mapping is a value, and a wrong one)
             port_values = {}
 
         if not isinstance(port_values, collections.abc.Mapping):
